@@ -570,8 +570,8 @@ SeqCan     == IsSeq /\ Len(hist) < DepthOf(pb) /\ ~LastIs({"assemble"})
 Entry(a, arg, val, obs, o) ==
     [a |-> a, arg |-> arg, val |-> val, obs |-> obs, fwd |-> IF obs = <<>> THEN <<>> ELSE MappedObs(pb, obs),
      exact |-> ExactNow(pb, o), gs |-> o.gs, go |-> o.go, godef |-> o.godef, to |-> o.to, par |-> o.par,
-     heap |-> o.heap, live |-> o.live, defined |-> Stale(o) = {},
-     obslive |-> IF obs = <<>> \/ Stale(o) = {} THEN <<>>
+     heap |-> o.heap, live |-> o.live, defined |-> (pb.mode # "ginp" \/ Stale(o) = {}),
+     obslive |-> IF pb.mode # "ginp" \/ obs = <<>> \/ Stale(o) = {} THEN <<>>
                  ELSE ObsNow(pb, [o EXCEPT !.gs = o.live.gs, !.go = o.live.go, !.to = o.live.to])]
 SeqFrame == UNCHANGED <<pb, ph, st, traj, calls>>
 
@@ -651,7 +651,7 @@ SeqThetas == { <<1, -1>>, <<2, 1>>, <<0, 2>> }        \* the parameters th0, th1
 \* ---- mode "param": parameter arrays with an identity ------------------------
 ParObjs   == {"P", "Q"}
 \* the array itself / a copy of it (equal value, another identity)
-ArgNames  == IF Level < 2 THEN {"P", "Pcopy", "Q"} ELSE {"P", "Pcopy", "Q", "Qcopy"}
+ArgNames  == {"P", "Pcopy", "Q"}
 ArgObj(a)    == IF a \in {"P", "Pcopy"} THEN "P" ELSE "Q"
 ArgIsCopy(a) == a \in {"Pcopy", "Qcopy"}
 \* the array o has been supplied to the object before (P: at construct - assemble - solve)
@@ -716,7 +716,7 @@ Reassign(slot) ==
 \* every Observe / Forward returns the observation for the CURRENT grids and times (the grids handed over last; silent
 \* while an array handed over has been modified in place and not handed over again)
 SeqObserveCurrent ==
-    (IsSeq /\ LastIs(ObsActs) /\ Stale(obj) = {}) => hist[Len(hist)].obs = ObsNow(pb, obj)
+    (IsSeq /\ LastIs(ObsActs) /\ (pb.mode = "ginp" => Stale(obj) = {})) => hist[Len(hist)].obs = ObsNow(pb, obj)
 \* the cached decision is the one for the current grids after every call
 SeqFlagFresh == IsSeq => obj.eq = (obj.go = obj.gs)
 \* the last solution solves the discrete problem of the parameter it was assembled for; after Solve / Forward that is
@@ -740,9 +740,9 @@ SeqParamCurrent ==
               th == obj.heap[ArgObj(e.arg)]
               u  == SeqSolution(pb, th)
           IN /\ obj.par = th /\ obj.solpar = th /\ e.val.th = th
-             /\ e.val.sol = u
+             /\ e.val.sol = u /\ obj.sol = u
              /\ (pb.kind = "sseq" => e.val.A = AOf(pb.m, th) /\ e.val.f = FOf(pb.m, th))
-             /\ e.obs = ObsNow(pb, [obj EXCEPT !.sol = u])
+             \* (the observation returned by the call is the observation of obj.sol = u: SeqObserveCurrent)
 \* equal parameter values give equal results: a copy and the array itself; f(th1) . f(th2) . f(th1): third = first
 SeqSameParamSameValue ==
     (IsSeq /\ pb.mode = "param") =>
@@ -752,9 +752,9 @@ SeqSameParamSameValue ==
 \* no call but the user's own in-place modification changes an array of the user (parameters and grids)
 SeqArgsUntouched ==
     IsSeq => \A i \in 1..Len(hist) :
-                LET before == IF i = 1 THEN SeqNew(pb) ELSE hist[i - 1]
-                IN /\ (hist[i].a # "mutate_param" => hist[i].heap = before.heap)
-                   /\ (hist[i].a \notin Changers => hist[i].live = before.live)
+                LET heap0 == IF i = 1 THEN [P |-> pb.th0, Q |-> pb.th1] ELSE hist[i - 1].heap
+                IN /\ (hist[i].a # "mutate_param" => hist[i].heap = heap0)
+                   /\ ((hist[i].a \notin Changers /\ i > 1) => hist[i].live = hist[i - 1].live)
 \* the bounds of the behaviours
 SeqBounds == IsSeq => /\ Len(hist) <= DepthOf(pb) /\ CountOf(Setters \cup {"mutate_grid"}) <= SeqSetters
                       /\ CountOf({"mutate_param"}) <= ParMutations
